@@ -155,6 +155,9 @@ func c11RenderFieldsInline(fs []*c11GField) string {
 			s += f.mod + " "
 		}
 		s += f.t.String() + " " + f.name
+		if f.def != "" {
+			s += " = " + f.def
+		}
 		parts = append(parts, s)
 	}
 	return strings.Join(parts, ", ")
